@@ -848,6 +848,7 @@ func (m MemoryFeatureSource) Read(options ReadOptions, emit Emit, ctx context.Co
 	ctx, cancel := context.WithCancel(ctx)
 	var wg sync.WaitGroup
 	var cause error
+	var lock sync.Mutex
 	feed := func(goroutine int) {
 		defer wg.Done()
 		for {
@@ -857,8 +858,11 @@ func (m MemoryFeatureSource) Read(options ReadOptions, emit Emit, ctx context.Co
 			case f, ok := <-c:
 				if ok {
 					if err := emit(f, goroutine); err != nil {
+						lock.Lock()
 						cause = err
+						lock.Unlock()
 						cancel()
+						return
 					}
 				} else {
 					return
@@ -871,10 +875,16 @@ func (m MemoryFeatureSource) Read(options ReadOptions, emit Emit, ctx context.Co
 	for i := 0; i < cores; i++ {
 		go feed(i)
 	}
+feeding:
 	for _, f := range m {
-		c <- f
+		select {
+		case c <- f:
+		case <-ctx.Done():
+			break feeding
+		}
 	}
 	close(c)
 	wg.Wait()
+	cancel()
 	return cause
 }
